@@ -1050,6 +1050,18 @@ class ReftableRefsContainer(RefsContainer):
             raise KeyError(name)
         return sha
 
+    def read_ref(self, refname: Ref) -> bytes | None:
+        """Read a reference without following any references.
+
+        Args:
+          refname: The name of the reference
+        Returns: The contents of the ref, or None if it does not exist.
+        """
+        try:
+            return self.read_loose_ref(refname)
+        except KeyError:
+            return None
+
     def read_loose_ref(self, name: Ref) -> bytes:
         """Read a reference value without following symbolic refs.
 
